@@ -78,9 +78,13 @@ def _stable_attrs(ct, cls) -> set[str] | None:
     return written - written_late
 
 
+_PURE_METHOD = None  # set by fold_memo: (method name, stable attrs) -> bool
+
+
 def _pure_expr(e, locals_, stable, outer_locals=frozenset(), key_names=frozenset()) -> bool:
     """pure, deterministic, and a function of the key alone: a local of the enclosing function that is not part of the key (and not derived
     from it inside the block) would make the table return a value computed for another call's inputs"""
+    approved: set[int] = set()  # `self.helper` callee nodes whose helper was shown to be a pure computation (ast.walk visits a call before its func)
     for n in ast.walk(e):
         if isinstance(n, ast.Name) and isinstance(n.ctx, ast.Load) and n.id in outer_locals and n.id not in key_names and n.id not in locals_ and n.id != "self":
             return False
@@ -103,12 +107,16 @@ def _pure_expr(e, locals_, stable, outer_locals=frozenset(), key_names=frozenset
                     continue
                 # a method of a value (array.reshape(..), shape.index(..)): pure for the array / tuple values of this package, but not on self
                 if isinstance(root, ast.Name) and root.id == "self":
+                    # .. unless it is a helper method whose whole body is itself such a computation of its parameters and stable attributes
+                    if isinstance(f.value, ast.Name) and _PURE_METHOD is not None and _PURE_METHOD(f.attr, stable):
+                        approved.add(id(f))
+                        continue
                     return False
                 if f.attr in ("append", "extend", "insert", "update", "pop", "clear", "sort", "setdefault", "remove", "add"):
                     return False
             else:
                 return False
-        if _is_self_attr(n) and isinstance(n.ctx, ast.Load) and n.attr not in stable:
+        if _is_self_attr(n) and isinstance(n.ctx, ast.Load) and n.attr not in stable and id(n) not in approved:
             return False
     return True
 
@@ -132,6 +140,34 @@ def fold_memo(ct) -> list[str]:
         if stable is None:
             continue
         init_nodes = {id(s[2].targets[0] if isinstance(s[2], ast.Assign) else s[2].target) for s in sites}
+        global _PURE_METHOD
+        _seen_pm: dict = {}
+
+        def _pure_method(name, stable_, _host=host):
+            if name in _seen_pm:
+                return _seen_pm[name]
+            _seen_pm[name] = False  # recursion guard
+            r_ = ct.lookup(_host, name)
+            fam_ = [k_ for k_ in ct.subclasses(_host) if name in k_.methods]
+            if not r_ or fam_ and any(k_.methods[name] is not r_[1] for k_ in fam_):
+                return False
+            fn_ = r_[1]
+            if fn_.decorator_list or fn_.args.vararg or fn_.args.kwarg:
+                return False
+            locs = {a.arg for a in fn_.args.args + fn_.args.kwonlyargs}
+            for st_ in fn_.body:
+                if isinstance(st_, ast.Expr) and isinstance(st_.value, ast.Constant):
+                    continue
+                if isinstance(st_, ast.Assign) and all(isinstance(t_, ast.Name) for t_ in st_.targets) and _pure_expr(st_.value, locs, stable_):
+                    locs |= {t_.id for t_ in st_.targets}
+                    continue
+                if isinstance(st_, ast.Return) and st_.value is not None and _pure_expr(st_.value, locs, stable_):
+                    continue
+                return False
+            _seen_pm[name] = True
+            return True
+
+        _PURE_METHOD = _pure_method
         # every other occurrence of `.C` must belong to an idiom instance
         occurrences = [n for m in ct.repo.modules.values() for n in ast.walk(m.tree) if isinstance(n, ast.Attribute) and n.attr == c and id(n) not in init_nodes]
         claimed: set[int] = set()
@@ -153,6 +189,12 @@ def fold_memo(ct) -> list[str]:
                     if len(st.value.args) == 2 and not (isinstance(st.value.args[1], ast.Constant) and st.value.args[1].value is None):
                         continue
                     v, key = st.targets[0].id, st.value.args[0]
+                    key_expr = key
+                    if isinstance(key, ast.Name):
+                        # the key is a local bound just before to a display of names: the table is keyed by those names
+                        binds = [b_ for b_ in body[:i] if isinstance(b_, ast.Assign) and len(b_.targets) == 1 and isinstance(b_.targets[0], ast.Name) and b_.targets[0].id == key.id]
+                        if len(binds) == 1 and isinstance(binds[0].value, (ast.Tuple, ast.Name, ast.Attribute, ast.Subscript)):
+                            key_expr = binds[0].value
                     nx = body[i + 1]
                     if not (isinstance(nx, ast.If) and not nx.orelse and isinstance(nx.test, ast.Compare) and len(nx.test.ops) == 1
                             and isinstance(nx.test.ops[0], ast.Is) and isinstance(nx.test.left, ast.Name) and nx.test.left.id == v
@@ -165,7 +207,7 @@ def fold_memo(ct) -> list[str]:
                         continue
                     locals_ = set()
                     okc = True
-                    key_names = frozenset(n.id for n in ast.walk(key) if isinstance(n, ast.Name))
+                    key_names = frozenset(n.id for n in ast.walk(key) if isinstance(n, ast.Name)) | frozenset(n.id for n in ast.walk(key_expr) if isinstance(n, ast.Name))
                     for s_ in comp:
                         if not (isinstance(s_, ast.Assign) and all(isinstance(t, ast.Name) or (isinstance(t, ast.Tuple) and all(isinstance(e, ast.Name) for e in t.elts))
                                                                    for t in s_.targets) and _pure_expr(s_.value, locals_, stable, outer, key_names)):
